@@ -47,6 +47,9 @@ def scenario_period(sc):
         for it in p['items']:
             if it.get('gap'):
                 m = max(m, float(it['gap']))
+    d = sc.get('dask') or {}
+    # (an element crosses the cluster in three steps - scatter, task, gather - without any event in between)
+    m = max(m, sum(max([float(v) for v in d.get(k) or [0]]) for k in ('scatter_lat', 'task_lat', 'gather_lat')))
     return 2 * m + 1
 
 
